@@ -136,6 +136,10 @@ pub fn c20_probes(t: &[u8]) -> Option<(Vec<Probe>, u64, u64)> {
 		let _ = (p.is_empty(), p.is_absolute(), p.segment_count());
 		v.push(Probe { name: "path.queries", allocs: alloc::count() - c0, loc: None });
 	}
+	// borrowed-to-borrowed conversions (validated views of the same bytes)
+	for (name, allocs, bytes) in borrowed_conversions(r) {
+		v.push(Probe { name, allocs, loc: bytes.map(|b| locate(input, b)) });
+	}
 	// the non-reference type when there is a scheme
 	if r.scheme().is_some() {
 		let c0 = alloc::count();
